@@ -68,6 +68,10 @@ var c05Items = []c05Item{
 		}
 	}},
 	{"b", func(r Row, out map[string]any, _ map[string][]any) { out["b"] = getPath(r, "b") }},
+	// quoted text holding the other quote character, or the ':' the engine uses internally between item and alias
+	{"'5\" pipe' AS part", func(r Row, out map[string]any, _ map[string][]any) { out["part"] = "5\" pipe" }},
+	{"\"it's fine\" AS note", func(r Row, out map[string]any, _ map[string][]any) { out["note"] = "it's fine" }},
+	{"'a:b' AS c1", func(r Row, out map[string]any, _ map[string][]any) { out["c1"] = "a:b" }},
 }
 
 type c05Where struct {
